@@ -137,6 +137,8 @@ def build_envs(spec, cats):
                        'shared' if spec['rnd_mode'] == 'shared' else 'op', spec.get('meta_share', False))
     rds = sorted({op['rd'] for cl in spec['clients'] for op in cl if 'rd' in op})
     shared_env.prebuild_renderers(rds)
+    if spec.get('tree_share'):
+        shared_env.prebuild_trees([op for cl in spec['clients'] for op in cl])
     envs = []
     single = len(spec['clients']) == 1 or spec['cat_mode'] == 'client'
     for cl in spec['clients']:
@@ -158,6 +160,11 @@ def _shared_objects(shared_env, envs):
         if e._cats is not None and id(e._cats) not in seen:
             seen.add(id(e._cats))
             out.append(('catalogs', e._cats))
+        trees = getattr(e, '_trees', None)
+        if trees and id(trees) not in seen:
+            seen.add(id(trees))
+            for key, tree in sorted(trees.items(), key=lambda kv: repr(kv[0])):
+                out.append(('tree[%s|%s]' % (key[0], (key[1] or key[2] or '')[:40]), tree))
     return out
 
 
